@@ -408,4 +408,22 @@ _build0 = build
 def build(d: dict) -> Circuit:  # noqa: F811
     if d["kind"] == "pipe":
         return build_pipe(d)
-    return _build0(d)
+    sc = _build0(d)
+    if d.get("freeze"):
+        _freeze(sc, d["freeze"])
+    return sc
+
+
+def _freeze(sc: Circuit, how: str) -> None:
+    """mark tensor parameters as non-learnable (how = 'all' | 'odd' | 'inputs' | 'sums')."""
+    from .harness import own_leaves
+
+    i = 0
+    for sl in sc.layers:
+        for _, g in sl.params.items():
+            for n in g.nodes:
+                if isinstance(n, TensorParameter) and not isinstance(n, SP.ConstantParameter):
+                    hit = how == "all" or (how == "odd" and i % 2 == 1) or (how == "inputs" and isinstance(sl, SL.InputLayer)) or (how == "sums" and isinstance(sl, SL.SumLayer))
+                    if hit:
+                        n.learnable = False
+                    i += 1
